@@ -1,4 +1,5 @@
 import Clikit.Lemmas.Progress
+import Clikit.Lemmas.ProgressClean
 /-!
 # C16 - a progress bar always shows a truthful, well-formed frame and ends at 100 %
 
@@ -175,13 +176,13 @@ theorem quiet_nothing (c : Config) (hq : c.quiet = true) (s0 : State) (ops : Lis
   rw [run_event c s0 ops e he]
   exact step_quiet c e.pre e.op e.t hq
 
-/-- **ANSI line.**  On an ANSI output with single-line frames (the format in use has no line
-break and the frame texts contain neither line breaks nor carriage returns), interpreting all
-writes of a history on a one-line terminal (`screen`): after every call that draws a frame the
-line is EXACTLY that frame followed by blanks only (padding up to the longest text written
-before) - no residue of longer earlier frames; after `clear()` it is blank; and the line is always
-as long as `_last_messages_length` says. -/
-theorem ansi_line_latest (c : Config) (hk : c.kind = .ansi) (hq : c.quiet = false) (m : Int) (t0 : Nat)
+/-- **ANSI line (hypotheses on the events).**  On an ANSI output with single-line frames (the
+format in use has no line break and the frame texts contain neither line breaks nor carriage
+returns), interpreting all writes of a history on a one-line terminal (`screen`): after every call
+that draws a frame the line is EXACTLY that frame followed by blanks only (padding up to the
+longest text written before) - no residue of longer earlier frames; after `clear()` it is blank;
+and the line is always as long as `_last_messages_length` says. -/
+theorem ansi_line_latest_events (c : Config) (hk : c.kind = .ansi) (hq : c.quiet = false) (m : Int) (t0 : Nat)
     (ops : List (Op × Nat))
     (hsingle : ∀ e ∈ run c (init m t0) ops,
       e.res.st.formatLineCount = 0 ∧ ∀ f, e.res.frame = some f → Clean f.text)
@@ -196,6 +197,23 @@ theorem ansi_line_latest (c : Config) (hk : c.kind = .ansi) (hq : c.quiet = fals
   refine ⟨this.1, ?_, ?_⟩
   · intro f hf; exact ⟨_, by rw [this.2.1 f hf]; rfl⟩
   · intro hn hw; exact ⟨_, this.2.2 hn hw⟩
+
+/-- **ANSI line.**  The same from hypotheses on the INPUTS only: if the text given to `set_format`
+(any text or format name, or none: the default formats of every verbosity qualify), the three bar
+characters and every message contain neither a line break nor a carriage return, then after every
+call that draws a frame the terminal line is exactly that frame followed by blanks only, after
+`clear()` it is blank, and its length is `_last_messages_length`. -/
+theorem ansi_line_latest (c : Config) (hk : c.kind = .ansi) (hq : c.quiet = false) (hc : CleanCfg c)
+    (m : Int) (t0 : Nat) (ops : List (Op × Nat)) (hops : ∀ x ∈ ops, CleanOp x.1)
+    (evs1 : List Event) (e : Event) (evs2 : List Event)
+    (h : run c (init m t0) ops = evs1 ++ e :: evs2) :
+    (screen ⟨[], []⟩ (evs1 ++ [e])).text.length = e.res.st.lastLen ∧
+    (∀ f, e.res.frame = some f →
+      ∃ k, (screen ⟨[], []⟩ (evs1 ++ [e])).text = f.text ++ spaces k) ∧
+    (e.res.frame = none → e.res.writes ≠ [] →
+      ∃ k, (screen ⟨[], []⟩ (evs1 ++ [e])).text = spaces k) :=
+  ansi_line_latest_events c hk hq m t0 ops
+    (run_clean c hc ops (init m t0) (init_formatInv m t0) hops) evs1 e evs2 h
 
 /-- **Plain output.**  On an output without overwriting, everything a history writes is the
 frames it draws (each padded with blanks), separated by exactly one line break - every frame
@@ -213,6 +231,35 @@ theorem plain_own_line (c : Config) (how : c.overwrite = false) (hq : c.quiet = 
   rw [show outOf (run c (init m t0) ops) = _ from h] at hch
   exact mem_joinNL _ ch hch
 
+
+/-- **Plain output, single-line inputs.**  With inputs free of line breaks and carriage returns
+(as in `ansi_line_latest`) every frame occupies exactly one line of the stream - it is the frame
+text followed by blanks - and no carriage return is ever written. -/
+theorem plain_single_lines (c : Config) (how : c.overwrite = false) (hq : c.quiet = false)
+    (hc : CleanCfg c) (m : Int) (t0 : Nat) (ops : List (Op × Nat)) (hops : ∀ x ∈ ops, CleanOp x.1) :
+    (∀ e ∈ run c (init m t0) ops, ∀ f, e.res.frame = some f →
+      plainLine e = some (ljust e.pre.lastLen f.text) ∧ Clean (ljust e.pre.lastLen f.text)) ∧
+    ∀ ch ∈ outOf (run c (init m t0) ops), ch ≠ '\r' := by
+  have hclean := run_clean c hc ops (init m t0) (init_formatInv m t0) hops
+  have h1 : ∀ e ∈ run c (init m t0) ops, ∀ f, e.res.frame = some f →
+      plainLine e = some (ljust e.pre.lastLen f.text) ∧ Clean (ljust e.pre.lastLen f.text) := by
+    intro e he f hf
+    have hcl := (hclean e he).2 f hf
+    refine ⟨?_, clean_ljust _ _ hcl⟩
+    simp [plainLine, hf, paddedText, splitNL_clean f.text (fun ch hch => (hcl ch hch).1), joinNL]
+  refine ⟨h1, ?_⟩
+  intro ch hch
+  rcases (plain_own_line c how hq m t0 ops).2 ch hch with h | ⟨l, hl, hcl⟩
+  · rw [h]; decide
+  · simp only [List.mem_filterMap] at hl
+    obtain ⟨e, he, hpl⟩ := hl
+    cases hfr : e.res.frame with
+    | none => simp [plainLine, hfr] at hpl
+    | some f =>
+      have := h1 e he f hfr
+      rw [this.1] at hpl
+      cases hpl
+      exact (this.2 ch hcl).2
 
 /-! ## The known finding D18b as a proved counterexample, and non-vacuity -/
 
@@ -263,6 +310,24 @@ example : (run cAnsi (init 3 64000) ops1).map (fun e => e.res.writes) =
 example : ∀ e ∈ run cAnsi (init 3 64000) ops1,
     e.res.st.formatLineCount = 0 ∧ ∀ f, e.res.frame = some f → ∀ ch ∈ f.text, ch ≠ '\n' ∧ ch ≠ '\r' := by
   decide
+
+/-- ... and so are the input-level hypotheses: the default configuration is clean -/
+example : CleanCfg cAnsi ∧ ∀ x ∈ ops1, CleanOp x.1 := by
+  have hcfg : CleanCfg cAnsi := by
+    unfold CleanCfg
+    refine ⟨?_, ?_, ?_, ?_⟩
+    · intro f h
+      have : cAnsi.internalFormat = none := by decide
+      rw [this] at h; cases h
+    · unfold Clean; decide
+    · unfold Clean; decide
+    · intro b h
+      have : cAnsi.barChar = none := by decide
+      rw [this] at h; cases h
+  refine ⟨hcfg, ?_⟩
+  intro x hx
+  simp [ops1] at hx
+  rcases hx with h | h | h | h <;> rw [h] <;> trivial
 
 /-- the same history on a quiet output: nothing is written, the state still advances -/
 example : (run { cAnsi with quiet := true } (init 3 64000) ops1).map (fun e => (e.res.writes, e.res.st.step)) =
